@@ -9,6 +9,8 @@
   the scheduler does afterwards.  No bound on anything.
 -/
 import ASV.Proofs.ParallelSpec
+import ASV.Proofs.ParallelState
+import ASV.Proofs.ParallelWorkers
 namespace ASV.C18
 open ASV ASV.Parallel
 
@@ -222,8 +224,165 @@ theorem faithful_pickling_invisible_partial (pa : α → α) (pb : β → β) (p
     | error e => simp [he]
   simp [parallelFunctionWire, this]
 
+/-! ### which children are workers (the D44 repair's own logic; seeded change C18_3) -/
+
+/-- a child process the caller already had when the helper was entered is never taken for a
+    worker: its exit is a `bystander` event … -/
+theorem earlier_child_exit_is_bystander (before after : List Nat) (p : Nat) (h : p ∈ before) :
+    Observed.toEvent before after (.exit p) = .bystander p :=
+  classifyExit_of_mem_before before after p h
+
+/-- … whereas the exit of a process that appeared with the pool is a worker death
+    (`worker_death_surfaces` then applies) -/
+theorem pool_worker_exit_is_death (before after : List Nat) (p : Nat) (ha : p ∈ after) (hb : p ∉ before) :
+    Observed.toEvent before after (.exit p) = .died p :=
+  classifyExit_of_worker before after p ha hb
+
+/-- **bystanders are invisible**: deleting every bystander exit from ANY event list — wherever it
+    occurs relative to completions, deadlines and worker deaths — leaves the outcome of
+    `parallel_function` unchanged; so all theorems above hold in a process that owns other children -/
+theorem bystander_exit_invisible (configCpus cpus : Nat) (f : α → Except ε β) (args : List α)
+    (hasTimeout : Bool) (evs : List Event) :
+    parallelFunction configCpus f args cpus hasTimeout (evs.filter fun e => !e.isBystander) =
+      parallelFunction configCpus f args cpus hasTimeout evs := by
+  unfold parallelFunction poolRun poolRunWith
+  simp only [await_drop_bystanders]
+
+/-- the same for `parallel_execute` -/
+theorem bystander_exit_invisible_execute (configCpus cpus : Nat) (runner : α → Except ε Int)
+    (commands : List α) (hasTimeout : Bool) (evs : List Event) :
+    parallelExecute configCpus runner commands cpus hasTimeout (evs.filter fun e => !e.isBystander) =
+      parallelExecute configCpus runner commands cpus hasTimeout evs := by
+  unfold parallelExecute poolRun poolRunWith
+  simp only [await_drop_bystanders]
+
+/-! ### shared state: threaded in the parent vs shipped with the function (seeded change C18_2) -/
+
+/-- **the code as written** (`pre_process_sequences`: `fix_record_name_id` with the shared id set
+    runs as a loop in the parent, only the stateless `sanitise_sequence` goes to the workers):
+    the stage gives the same outcome with any number of workers, any batch size and any
+    completion order as with one cpu -/
+theorem state_threaded_in_parent_cpus_invariant {σ γ : Type} (configCpus cpus configCpus' cpus' : Nat)
+    (g : σ → α → Except ε (σ × β)) (s₀ : σ) (h : β → Except ε γ) (args : List α)
+    (hasTimeout hasTimeout' : Bool) (sched rest evs' : List Event)
+    (hk : 2 ≤ resolveCpus configCpus cpus) (h1 : resolveCpus configCpus' cpus' = 1)
+    (hc : Complete (numChunks args.length (resolveCpus configCpus cpus)) sched)
+    (hh : ∀ s bs, threaded g s₀ args = .ok (s, bs) → ∃ l, sequential h bs = .ok l) :
+    preProcessStage configCpus g s₀ h args cpus hasTimeout (sched ++ rest) =
+      preProcessStage configCpus' g s₀ h args cpus' hasTimeout' evs' := by
+  unfold preProcessStage
+  cases hthr : threaded g s₀ args with
+  | error e => rfl
+  | ok p =>
+    obtain ⟨s, bs⟩ := p
+    simp only
+    split
+    · rfl
+    · obtain ⟨l, hl⟩ := hh s bs hthr
+      have hlen := threaded_length g args s₀ s bs hthr
+      rw [← hlen] at hc
+      rw [parallel_eq_sequential configCpus cpus h bs hasTimeout sched rest hk hc l hl,
+        cpus_one_ignores_pool configCpus' cpus' h bs hasTimeout' evs' h1]
+      simp [sequentialOutcome, hl]
+
+/-- **shipping the state with the function** (`parallel_function(partial(g, state), …)`): for every
+    worker count `≥ 2`, batch size and completion order, the result equals the in-process result
+    `bs` **iff** every task batch, run on the stale copy of the initial state, happens to produce
+    what it produces on the live state (`StaleAgrees`) — e.g. when all calls fall into one batch or
+    the outputs do not depend on the state; it differs as soon as one batch depends on an update
+    made by an earlier batch (negation witness with real identifiers below) -/
+theorem shipped_state_eq_sequential_iff {σ : Type} (configCpus cpus : Nat)
+    (g : σ → α → Except ε (σ × β)) (s₀ sf : σ) (args : List α) (bs : List β)
+    (hasTimeout : Bool) (sched rest : List Event)
+    (hk : 2 ≤ resolveCpus configCpus cpus)
+    (hc : Complete (numChunks args.length (resolveCpus configCpus cpus)) sched)
+    (hseq : threaded g s₀ args = .ok (sf, bs)) :
+    parallelFunctionShipped configCpus g s₀ args cpus hasTimeout (sched ++ rest) = .returned (bs.map some) ↔
+      StaleAgrees g s₀ s₀ (getTasks (chunkSize args.length (resolveCpus configCpus cpus)) args) := by
+  have h1 : resolveCpus configCpus cpus ≠ 1 := by omega
+  have h0 : resolveCpus configCpus cpus ≠ 0 := by omega
+  have hw : 0 < resolveCpus configCpus cpus := by omega
+  simp only [parallelFunctionShipped, h1, h0, if_false]
+  obtain ⟨_, hflat, _, _, _⟩ :=
+    init_facts (shippedChunk g s₀) args (resolveCpus configCpus cpus)
+  have hseq' := hseq
+  rw [← hflat] at hseq'
+  have hiff := shipped_eq_threaded_iff g s₀ _ s₀ sf bs hseq'
+  have hcomp := poolRunWith_complete (shippedChunk g s₀) (shippedChunk_lengthPreserving g s₀) args
+    _ hw hasTimeout sched rest hc
+  constructor
+  · intro hret
+    apply hiff.mp
+    cases hrs : comprehension (shippedChunk g s₀)
+        (getTasks (chunkSize args.length (resolveCpus configCpus cpus)) args) with
+    | ok rs =>
+      rw [hcomp.1 rs hrs] at hret
+      simp only [Outcome.returned.injEq] at hret
+      exact ⟨rs, rfl, map_some_inj _ _ hret⟩
+    | error e₀ =>
+      obtain ⟨e, t, _, _, hraised⟩ := hcomp.2 e₀ hrs
+      rw [hraised] at hret
+      cases hret
+  · intro hagree
+    obtain ⟨rs, hrs, hflat'⟩ := hiff.mpr hagree
+    rw [hcomp.1 rs hrs, hflat']
+
+/-- in-process the shipped state IS the caller's state: one cpu gives the threaded result -/
+theorem shipped_state_one_cpu {σ : Type} (configCpus cpus : Nat) (g : σ → α → Except ε (σ × β))
+    (s₀ sf : σ) (args : List α) (bs : List β) (hasTimeout : Bool) (evs : List Event)
+    (h1 : resolveCpus configCpus cpus = 1) (hseq : threaded g s₀ args = .ok (sf, bs)) :
+    parallelFunctionShipped configCpus g s₀ args cpus hasTimeout evs = .returned (bs.map some) := by
+  simp [parallelFunctionShipped, h1, hseq]
+
+/-! ### the worker functions of `pre_process_sequences` (pure functions of the record) -/
+
+/-- `sanitise_sequence` leaves only `A C G T N`, never lengthens the sequence … -/
+theorem sanitise_output_alphabet (r : SeqRec) (c : Char) (h : c ∈ (sanitiseSequence r).seq) :
+    c ∈ ['A', 'C', 'G', 'T', 'N'] ∧ (sanitiseSequence r).seq.length ≤ r.seq.length :=
+  ⟨sanitiseChars_alphabet r.seq c h, sanitiseChars_length_le r.seq⟩
+
+/-- … and is idempotent: a record that went through it (in a worker or not) is unchanged by a
+    second pass, sequence and skip flag alike -/
+theorem sanitise_idempotent (r : SeqRec) : sanitiseSequence (sanitiseSequence r) = sanitiseSequence r :=
+  sanitiseSequence_idempotent r
+
+/-- `ensure_cds_info`: a record that comes back without error is skipped or has genes; skipped
+    records come back untouched -/
+theorem ensure_cds_info_marks_geneless (gff3 toolNone : Bool) (gf : GeneFinder) (r r' : CdsRec)
+    (h : ensureCdsInfo gff3 toolNone gf r = .ok r') :
+    (truthy r'.skip = true ∨ 0 < r'.cds) ∧ (truthy r.skip = true → r' = r) := by
+  refine ⟨ensureCdsInfo_post gff3 toolNone gf r r' h, fun hs => ?_⟩
+  rw [ensureCdsInfo_skipped gff3 toolNone gf r hs] at h
+  cases h; rfl
+
 /-! ### non-vacuity: concrete batches, schedules and outcomes -/
 
+example : sanitiseSequence ⟨"ac-gtRyN-".toList, none⟩ = ⟨"ACGTNNN".toList, none⟩ := by decide
+example : sanitiseSequence ⟨"nn--RY".toList, none⟩ = ⟨"NNNN".toList, some "contains no sequence"⟩ := by decide
+example : ensureCdsInfo false false (.finds 0) ⟨none, 0⟩ = .ok ⟨some "No genes found", 0⟩ := rfl
+example : ensureCdsInfo false false .fails ⟨none, 0⟩ = .error "AntismashInputError" := rfl
+example : ensureCdsInfo false true .fails ⟨none, 0⟩ = .ok ⟨some "No genes found", 0⟩ := rfl
+example : ensureCdsInfo false false (.finds 3) ⟨none, 0⟩ = .ok ⟨none, 3⟩ := rfl
+
+/-- seeded change C18_3 in the model: if nothing is excluded from the worker list
+    (`before = []`), the exit of the caller's earlier child 100 is read as a worker death … -/
+example : parallelFunctionObserved 1 [] [100, 0, 1] (fun (n : Nat) => (Except.ok n : Except String Nat))
+    [1, 2, 3] 2 false [.done 0, .exit 100, .done 1, .done 2] = .raised .workerDied := by decide
+/-- … with the snapshot taken properly the same observations give the sequential result -/
+example : parallelFunctionObserved 1 [100] [100, 0, 1] (fun (n : Nat) => (Except.ok n : Except String Nat))
+    [1, 2, 3] 2 false [.done 0, .exit 100, .done 1, .done 2] = .returned [some 1, some 2, some 3] := by
+  decide
+/-- seeded change C18_2 in the model, with the C16 model of `fix_record_name_id`: `scaffold(1)` and
+    `scaffold[1]` both become `scaffold1`; threaded in one process the second one is renamed … -/
+example : (match threaded (fixCall false) ["scaffold(1)".toList, "scaffold[1]".toList]
+      [{ id := "scaffold(1)".toList, name := "n".toList, orig := none, index := 1 }, { id := "scaffold[1]".toList, name := "n".toList, orig := none, index := 2 }] with
+    | .ok p => p.2.map (·.id) == ["scaffold1".toList, "scaffold1_0".toList]
+    | .error _ => false) = true := by decide
+/-- … shipped to two workers (two batches of one record) both keep `scaffold1`: duplicate ids -/
+example : parallelFunctionShipped 1 (fun t r => (fixCall false t r).map fun p => (p.1, p.2.id))
+      ["scaffold(1)".toList, "scaffold[1]".toList]
+      [{ id := "scaffold(1)".toList, name := "n".toList, orig := none, index := 1 }, { id := "scaffold[1]".toList, name := "n".toList, orig := none, index := 2 }]
+      2 false [.done 1, .done 0] = .returned [some "scaffold1".toList, some "scaffold1".toList] := by decide
 /-- what the faithfulness hypothesis protects: a result type whose pickle loses information
     (here: `pb` forgets the second component) makes the pool path differ from the sequential one -/
 example : parallelFunctionWire id (fun (p : Nat × Nat) => (p.1, 0)) id 1
